@@ -83,7 +83,7 @@ func CallClient(client reflect.Value, op *Op, params reflect.Value) (resp reflec
 // DESIGN.md §11 (C09). bodyBytes receives the content of a raw body reader.
 func GenParams(t *rapid.T, p *Pkg, op *Op, decls []ParamDecl) (reflect.Value, []byte, *ValGen) {
 	v := reflect.New(op.ParamsType).Elem()
-	g := &ValGen{T: t, Doc: p.Doc}
+	g := &ValGen{T: t, Doc: p.Doc, PathWords: pathWords(p)}
 	var raw []byte
 	if decls == nil {
 		decls, _ = OpParams(op)
@@ -512,4 +512,19 @@ func bodyClassSuffix(p *Pkg, op *Op) string {
 		}
 	}
 	return ""
+}
+
+// pathWords lists the constant segments of all templates of the package's spec.
+func pathWords(p *Pkg) []string {
+	seen := map[string]bool{}
+	var out []string
+	for _, tpl := range specgen.SortedKeys(p.Doc.Paths) {
+		for _, seg := range strings.Split(tpl, "/") {
+			if seg != "" && !strings.HasPrefix(seg, "{") && !seen[seg] {
+				seen[seg] = true
+				out = append(out, seg)
+			}
+		}
+	}
+	return out
 }
